@@ -100,7 +100,8 @@ class PoolProp(Prop):
         tiny = [dict(cfg=[1, 1, 1, 0, None], hist=[[0, 1, [1, 2], 1]]),
                 dict(cfg=[2, ["f", 10], 1, 0, None], hist=[[0, 1, [1, 2, 3], 1]]),
                 dict(cfg=[2, None, None, 1, 1], hist=[[0, 0, [1, 2], 1], [0, 1, [3], 1]]),
-                dict(cfg=[2, ["f", 10], 2, 1, 2], hist=[[1], [0, 1, [4, 5, 6], 2], [1]])]
+                dict(cfg=[2, ["f", 10], 2, 1, 2], hist=[[1], [0, 1, [4, 5, 6], 2], [1]]),
+                dict(cfg=[2, 1, None, 1, 1], hist=[[0, 1, [1, 2], 1]])]      # the configuration of the repaired exit hang F4'
         for b in tiny:
             for k in range(40 if tier == "quick" else 700):
                 yield dict(cfg=b["cfg"], hist=b["hist"], seed=0, policy="np", pb1=k)
